@@ -55,8 +55,9 @@ class NpVec(list):
 class Opaque:
   """A value the interpreter knows nothing about."""
 
-  def __init__(self, tag: str = '?'):
+  def __init__(self, tag: str = '?', notnone: bool = False):
     self.tag = tag
+    self.notnone = notnone   # an unknown value that is certainly not None (the result of a numpy constructor ...)
 
   def __repr__(self):
     return f'Opaque({self.tag})'
@@ -353,7 +354,7 @@ class Interp:
       else:
         self.exec_block(st.orelse, module, env, depth, func)
     elif isinstance(st, ast.For):
-      it = ev(st.iter)
+      it = self._iterable(ev(st.iter))
       if isinstance(it, Opaque):
         raise NotInterpretable(
             f'{module.rel}:{st.lineno}: loop over unknown sequence '
@@ -507,6 +508,19 @@ class Interp:
         base.touch()
     else:
       raise NotInterpretable(f'assignment target {ast.unparse(target)}')
+
+  def _iterable(self, it):
+    """What a for loop / comprehension iterates: an enum class yields its members; anything that Python could not
+    iterate in the model is Opaque (the caller refuses), never a crash."""
+    if isinstance(it, Ref):
+      if it.kind == 'class':
+        ci = self._class(it.fq)
+        if ci is not None and ci.is_enum:
+          return list(self.ev.enum_members(ci))
+      return Opaque('iter')
+    if isinstance(it, (Obj, Ext, EnumVal, int, float, type(None), bool)):
+      return Opaque('iter')
+    return it
 
   def _index_key(self, sl, module, env, depth):
     """The Python index object of a subscript (ints, slices, tuples of them); None when a part is unknown."""
@@ -725,7 +739,7 @@ class Interp:
           results.append(self.eval(node.elt, module, env2, depth))
         return True
       g = node.generators[i]
-      it = self.eval(g.iter, module, env2, depth)
+      it = self._iterable(self.eval(g.iter, module, env2, depth))
       if isinstance(it, Opaque):
         return False
       if isinstance(it, dict):
@@ -754,6 +768,9 @@ class Interp:
     if isinstance(op, (ast.Is, ast.IsNot)):
       if a is None or b is None:
         if isinstance(a, Opaque) or isinstance(b, Opaque):
+          o = a if isinstance(a, Opaque) else b
+          if o.notnone:
+            return isinstance(op, ast.IsNot)
           return Opaque('is')
         r = a is None and b is None
         return r if isinstance(op, ast.Is) else not r
@@ -918,7 +935,7 @@ class Interp:
       try:
         return ndarr.np_call(fname.split('.', 1)[1], args, kwargs)
       except ndarr.NotModelled:
-        return Opaque(f'call:{fname}')
+        return Opaque(f'call:{fname}', notnone=True)
       except (ValueError, IndexError, TypeError) as e:
         raise _Raise(type(e).__name__, str(e), node)
     if fname in ('np.mean', 'numpy.mean', 'np.average', 'np.sum', 'numpy.sum', 'np.min', 'np.max', 'numpy.min', 'numpy.max') and len(args) == 1 and not kwargs \
@@ -939,7 +956,7 @@ class Interp:
       try:
         return ndarr.np_create(fname.split('.', 1)[1], args, kwargs)
       except ndarr.NotModelled:
-        return Opaque(f'call:{fname}')
+        return Opaque(f'call:{fname}', notnone=True)
     if fname in ('np.array', 'np.asarray', 'numpy.array', 'numpy.asarray') and len(args) == 1 and set(kwargs) == {'dtype'} \
         and isinstance(args[0], (list, tuple)) and all(isinstance(x, int) and not isinstance(x, bool) for x in args[0]) \
         and isinstance(kwargs['dtype'], Ext) and kwargs['dtype'].name in ('np.int32', 'np.int64'):
@@ -1026,7 +1043,10 @@ class Interp:
       return self.call_function(fi, args, kwargs, depth + 1)
     if isinstance(callee, Ref) and callee.kind == 'class':
       return self.construct(callee.fq, args, kwargs, node, depth)
-    return Opaque(f'call:{ast.unparse(node.func)[:40]}')
+    text = ast.unparse(node.func)
+    # numpy's array constructors and functions return arrays / numbers, never None (the few in-place procedures excepted)
+    np_value = text.split('.')[0] in ('np', 'numpy') and text.split('.')[-1] not in ('copyto', 'put', 'place', 'putmask', 'shuffle', 'seed', 'fill', 'save', 'savez', 'seterr')
+    return Opaque(f'call:{text[:40]}', notnone=np_value)
 
   def construct(self, fq, args, kwargs, node, depth):
     ci = self._class(fq)
